@@ -38,16 +38,18 @@ ASSUMPTIONS = [
     "Excl: continuations after an operation raised (mutating a frozen dict; mutating an unfrozen dict after optimize() "
     "turned its per-key lists into tuples) are pruned and counted in outcome class op-raised:*, not judged",
     "Excl: PayloadDict subclass; render_to_dict / render_to_payload output shapes",
-    "flags universe {x, y, z, foo_a}; probe packages a/p-1, a/p-2, a/q-1, b/r-1; pre_defaults {}, {x}, {foo_a,y,z}",
+    "flags universe {x, y, z, foo_a}; probe packages a/p-1, a/p-2, a/q-1, b/r-1; pre_defaults {}, {x}, {foo_a,foox,y,z} (foox: a flag that merely starts with the letters of a cleared prefix)",
     "dom kind: package IUSE contains every universe flag, no use.mask/use.force besides the arch flag, USE_EXPAND=FOO",
 ]
 BOUNDS = {
-    "quick": "bfs: core alphabet (24 events) to depth 4 plus full alphabet (~70 events) to depth 3, partitioned by 2-event / 1-event root prefixes; dom: 3 layers x entry alphabet, all configurations of <=3 lines",
-    "thorough": "bfs: core alphabet to depth 5 plus full alphabet to depth 4; dom: all configurations of <=4 lines",
+    "quick": "bfs: core alphabet (24 events) to depth 4 plus full alphabet (70 events) to depth 3, partitioned by 2-event / 1-event root prefixes; dom: 4 make.defaults variants x every sequence of <=3 profile/user package.use lines out of 15",
+    "thorough": "bfs: core alphabet to depth 5 plus full alphabet to depth 4; dom: every sequence of <=4 lines",
 }
 
+TIME_CAP = {"quick": 300, "thorough": 2400}
+
 PKGS = ("a/p-1", "a/p-2", "a/q-1", "b/r-1")
-PRES = ((), ("x",), ("foo_a", "y", "z"))
+PRES = ((), ("x",), ("foo_a", "foox", "y", "z"))
 
 # ---------------------------------------------------------------- reference model (A6)
 
@@ -127,7 +129,7 @@ def alphabet(name):
     allent = G_ENTRIES + P_ENTRIES + V_ENTRIES + C_ENTRIES
     adds = _add_events(allent)
     adds += [["a", "*", ["x"], []]]  # add_global(item) rather than add_bare_global
-    red = [G_ENTRIES[0], G_ENTRIES[2], G_ENTRIES[4], P_ENTRIES[1], P_ENTRIES[3], V_ENTRIES[0], C_ENTRIES[1]]
+    red = [G_ENTRIES[0], G_ENTRIES[2], P_ENTRIES[1], V_ENTRIES[0], C_ENTRIES[1]]
     streams = [["u", [a, b]] for a, b in itertools.product([G_ENTRIES[0], G_ENTRIES[2], P_ENTRIES[1], V_ENTRIES[0]], repeat=2) if a != b]
     merges = [["m", [e]] for e in allent] + [["m", [a, b]] for a, b in itertools.product(red, repeat=2) if a != b]
     return adds + streams + merges + STRUCT
@@ -385,6 +387,7 @@ DOM_LINES = [
     ("pu", "*/* FOO: -* b"),
     ("pu", "*/* FOO: a"),
     ("pu", "a/p -x"),
+    ("pu", "a/p y"),
     ("pu", "=a/p-1 -* z"),
     ("pu", "a/* -x"),
     ("pu", "a/* x"),
@@ -727,8 +730,8 @@ def _k_delta(case):
 def _k_sync(case):
     """No wildcard; per-key lists out of step with the global list: (a) a keyed add()/update_from_stream() to a key that
     already exists after >= 2 global entries (the collapsed globals are appended again, after earlier keyed entries);
-    (b) clone()/clone(unfreeze=True), then a global entry, then a merge() bringing a keyed entry (the clone's new keys
-    start from the original's globals)."""
+    (b) clone()/clone(unfreeze=True), then a global entry, then a keyed entry (the clone's new keys start from the
+    original's globals)."""
     ents, ops = _case_events(case)
     if _has_wild(ents):
         return False
@@ -743,13 +746,29 @@ def _k_sync(case):
                 return True
     for i, o in ops:
         if o in ("c", "k"):
-            gl = [e[0] for e in ents if e[0] > i and e[2] in ("*", "a/*")]
-            if gl and any(e[1] == "m" and cp(e[2]) and e[0] > min(gl) for e in ents):
-                return True
+            seen_global = False
+            for e in ents:
+                if e[0] < i:
+                    continue
+                if e[2] in ("*", "a/*"):
+                    seen_global = True
+                elif seen_global and cp(e[2]):
+                    return True
     return False
 
 
+def _k_prefix(case):
+    """The only difference is that 'foox' (not a foo_ flag) was cleared by a -foo_* entry."""
+    if case["kind"] != "bfs" or "foox" not in case.get("pre", ()):
+        return False
+    ents, _ = _case_events(case)
+    if not any("foo_*" in e[3] for e in ents):
+        return False
+    return "foox" not in case["got"] and sorted(case["got"] + ["foox"]) == sorted(case["exp"])
+
+
 CLASSIFIERS = {
+    "prefix-wildcard-clears-unprefixed-flag": _k_prefix,
     "wildcard-negation-moved-by-collapse": _k_wildcard,
     "collapse-drops-respecified-flag": _k_delta,
     "keyed-list-out-of-step-with-globals": _k_sync,
